@@ -157,7 +157,8 @@ Definition tbackend (b : backend) : tok :=
 Inductive opx :=
 | OBase (o : op)
 | OCtor (gc : bool) (n_names n_defaults : nat) (b : backend)
-| OBackends (gc : bool).
+| OBackends (gc : bool)
+| OFitBad.      (* BatchCluster.fit with batch_size < 1: batch_dicts raises ValueError before anything is processed *)
 
 Definition tidtrace (tr : id_trace) : tok := tlist (tpair tN tN) tr.
 
@@ -194,6 +195,7 @@ Definition stepx (defs : list N) (mode : attr_mode) (pool : list item) (ts : lis
        | CtorImportError => Strs.import_error
        end, ts)
   | OBackends gc => (L [Strs.nx], ts)
+  | OFitBad => (L [Strs.value_error; ttemplates ts], ts)
   end.
 
 Fixpoint playx (defs : list N) (mode : attr_mode) (pool : list item) (ts : list template) (ops : list opx) : list tok :=
@@ -201,6 +203,10 @@ Fixpoint playx (defs : list N) (mode : attr_mode) (pool : list item) (ts : list 
   | [] => []
   | o :: r => let '(t, ts') := stepx defs mode pool ts o in t :: playx defs mode pool ts' r
   end.
+
+(** BatchCluster.batch_dicts(list, batch_size): ValueError for batch_size < 1 *)
+Definition batch_dicts_tok (b : nat) (l : list nat) : tok :=
+  match b with O => Strs.value_error | S _ => tlist (tlist tnat) (chunks b l) end.
 
 Definition runx (defs : list N) (mode : attr_mode) (pool : list item) (ops : list opx) : tok :=
   L (playx defs mode pool [] ops).
